@@ -74,6 +74,10 @@ func (x *Exec) callFunc(fr *frame, st *State, callee *ssa.Function, args []Value
 	if x.isSpecFunc(callee) {
 		return x.callSpec(st, callee, args)
 	}
+	if x.Opt.AssumeNoop[q] {
+		x.Notes.Assumed["in this unit "+q+" is assumed to leave the modelled heap unchanged (unit option assume_noop); its result is arbitrary"] = true
+		return x.freshResult(st, q, resT)
+	}
 	if ct := x.Prog.Contracts[q]; ct != nil && !x.Opt.NoContract[q] && !(x.Opt.InlineAll && callee.Blocks != nil) {
 		if ct.Havoc {
 			x.Notes.Uncontracted[q+" (havocked by its contract: nothing is assumed about it)"] = true
